@@ -100,6 +100,43 @@ pub fn check(sh: &Shared, c: &Case) -> Check {
     Ok(())
 }
 
+/// every semantically equal pair of the C06 small universe must hash equally
+pub fn check_universe(sh: &Shared, _c: &u8) -> Check {
+    let u = c06::small_universe();
+    let canons: Vec<C> = u.iter().map(canon_d).collect();
+    let t1: Vec<Term> = u.iter().map(build_raw).collect();
+    let t2: Vec<Term> = u.iter().map(build_ctor).collect();
+    let rs = RandomState::new();
+    let h1: Vec<u64> = t1.iter().map(|t| rs.hash_one(t)).collect();
+    let h2: Vec<u64> = t2.iter().map(|t| rs.hash_one(t)).collect();
+    let mut index: std::collections::HashMap<&C, Vec<usize>> = std::collections::HashMap::new();
+    for (i, c) in canons.iter().enumerate() {
+        index.entry(c).or_default().push(i);
+    }
+    for group in index.values() {
+        for &i in group {
+            for &j in group {
+                sh.eval();
+                if !guard(|| t1[i] == t2[j]).unwrap_or(false) {
+                    sh.class("inconclusive/library-eq-false");
+                    continue;
+                }
+                if i != j {
+                    sh.nontrivial(fp(&(i, j)));
+                }
+                if h1[i] != h2[j] {
+                    fail!("hash:differs", "small universe: equal terms hash differently\nx = {:?}\ny = {:?}", u[i], u[j]);
+                }
+                let set: HashSet<Term> = HashSet::from([t1[i].clone()]);
+                if !set.contains(&t2[j]) {
+                    fail!("hash:lookup-fails", "small universe: HashSet{{x}}.contains(y) is false\nx = {:?}\ny = {:?}", u[i], u[j]);
+                }
+            }
+        }
+    }
+    Ok(())
+}
+
 pub fn neutral_edit() -> BoxedStrategy<Edit> {
     prop_oneof![
         60 => (any::<u16>(), any::<u16>()).prop_map(|(i, j)| Edit::SwapKids(i, j)),
@@ -114,10 +151,18 @@ pub fn strategy() -> BoxedStrategy<Case> {
 }
 
 pub fn streams() -> Vec<Box<dyn AnyStream>> {
-    vec![Box::new(Stream::<Case> {
+    vec![
+        Box::new(Stream::<u8> {
+            name: "small-universe",
+            quick: 0,
+            thorough: 0,
+            source: Source::Enum(Box::new(|_| Box::new(vec![0u8].into_iter()))),
+            check: Box::new(check_universe),
+        }),
+        Box::new(Stream::<Case> {
         name: "equal-pairs",
-        quick: 12_000,
-        thorough: 600_000,
+        quick: 25_000,
+        thorough: 2_000_000,
         source: Source::Gen(Box::new(strategy)),
         check: Box::new(check),
     })]
